@@ -73,6 +73,19 @@ ZERO_END_PROBES = [
 ]
 
 
+def corpus_tasks():
+    """minimised past failures (corpus/C01/*.json), replayed first on every run"""
+    d = os.path.join(lib.VERIF, "corpus", "C01")
+    out = []
+    if os.path.isdir(d):
+        for i, f in enumerate(sorted(os.listdir(d))):
+            if f.endswith(".json"):
+                obj = json.load(open(os.path.join(d, f)))
+                g = obj["graph"]
+                out.append((g, [dict(c) for c in obj["cfgs"]], 0, "corpus_%d" % i, 60))
+    return out
+
+
 def zero_end_tasks():
     base = {"processor": "single_thread", "max_workers": 1, "allow_lazy": True, "max_messages": 4,
             "allow_rechunk": True, "api": "get_iter", "allow_multiprocess": False, "switch": 0.005}
@@ -367,6 +380,11 @@ def gen_config(rng, graph, thorough=False):
            "switch": rng.choice([1e-6, 1e-6, 1e-5, 1e-4, 0.005])}
     kinds = {n["kind"] for n in graph["nodes"]}
     lagged = kinds & {"exhaust", "overlap"}
+    # a loop plugin aligns two kinds with early splits and can emit zero-duration calls; if anything consumes its
+    # output next to a sibling branch, those count as lag as well (finding F2)
+    used = {d for n in graph["nodes"] for d in n["deps"]}
+    if any(n["kind"] == "loop" and n["name"] in used for n in graph["nodes"]):
+        lagged = lagged | {"loop"}
     branching = any(len(n["deps"]) > 1 for n in graph["nodes"]) or "multi" in kinds
     if lagged and branching:
         # a stage that holds chunks back next to a sibling branch needs buffers above its lag (C13)
@@ -922,6 +940,29 @@ def compare_model(ctx, reports, stats):
                                                                     "stored_before": r["stored_before"], "stage": r["stage"]},
                            "model_line": m["line"][:4000], "model_out": out[:2000]}, no_failing_input=True)
     ctx.count("eval_graph", n_cmp, n_cmp, {"runs_compared_with_model": n_cmp})
+    # extraction cross-check: a sample of the model evaluations is repeated inside Coq by vm_compute
+    from harness.props import c01_coq
+    sample = [(rep, r, out) for (rep, r), out in zip(jobs, outs) if len(r["model"]["line"]) < 6000]
+    ctx.rng.shuffle(sample)
+    eqs = []
+    for rep, r, out in sample[:(12 if ctx.thorough else 5)]:
+        tid = r["model"]["ids"][rep["graph"]["target"]]
+        if out.startswith("err"):
+            want = None
+        elif out.startswith("EXC") or out in ("BAD", "UNKNOWN"):
+            continue
+        else:
+            want = parse_model_out(out)[tid][0]
+            if not isinstance(want, list):
+                continue
+        eqs.append(c01_coq.equation(r["model"]["line"], tid, want))
+    if eqs:
+        n_eq, fails = lib.coq_crosscheck("C01", c01_coq.IMPORTS, eqs, shard=3)
+        ctx.count("extraction_crosscheck", n_eq, n_eq, {"vm_compute_equations": n_eq})
+        if fails:
+            ctx.violation("extraction_crosscheck", "eval_graph evaluated inside Coq (vm_compute) differs from the extracted "
+                          "OCaml driver: " + fails[0][-400:], {"input": "corr:C01/extraction_crosscheck", "log": fails[0][-1500:]},
+                          no_failing_input=True)
 
 
 
@@ -1030,7 +1071,7 @@ def run(ctx):
         g["prep_cfg"] = dict(gen_config(rng, g), chunking=0, api="get_iter", switch=0.005)
         tag = "s%d_%s_%d" % (ctx.seed, ctx.tier[0], len(tasks))
         tasks.append((g, cfgs, rng.randrange(1 << 30), tag, 60))
-    tasks = zero_end_tasks() + tasks
+    tasks = zero_end_tasks() + corpus_tasks() + tasks
     stats = {"runs": 0, "ok": 0, "dist": {}, "nontrivial": set()}
     nproc = int(os.environ.get("C01_NPROC", min(14, os.cpu_count() or 4)))
     t_gen = time.time() - t_start
